@@ -49,7 +49,8 @@ type owatch struct {
 	blocked   bool // the last Next returned noevent
 	malformed bool
 	subject   string
-	residue   string // for a watch opened after a restore: what of the earlier epochs was still around
+	residue   string // for a watch opened after a restore: batches of the earlier epoch still queued at its open ("queued"), or an unreleased watch
+	// of its own epoch and subject that had them ("inherited": they share the topic buffer and the cached snapshot)
 }
 
 type orc struct {
@@ -355,15 +356,15 @@ func oracleSched(c *JCase) {
 				if o.epoch > 0 {
 					buf := false
 					for _, e := range o.watches {
-						if e.subject == w.subject && !e.released && (e.epoch < o.epoch || e.residue != "none") {
+						if e.subject == w.subject && !e.released && e.epoch == o.epoch && e.residue != "none" {
 							buf = true
 						}
 					}
 					switch {
 					case buf && staleQueued > 0:
-						w.residue = "buffer+queued"
+						w.residue = "inherited+queued"
 					case buf:
-						w.residue = "buffer"
+						w.residue = "inherited"
 					case staleQueued > 0:
 						w.residue = "queued"
 					}
